@@ -488,6 +488,8 @@ pub fn run_coll(c: &CollCase) -> Outcome {
     let is_ws = matches!(kind, CollKind::WsNativeScripts | CollKind::WsPlutusScripts | CollKind::WsPlutusData);
     let mut obj = new_obj(kind);
     let mut model: Vec<u8> = vec![];
+    // the object a copy was taken from stays with its owner, who adds nothing more: it is an unchanged collection
+    let mut held: Option<(Box<dyn Obj>, Vec<u8>, usize)> = None;
     let mut sig = kind as u64;
     for (i, op) in c.ops.iter().enumerate() {
         out.steps += 1;
@@ -677,7 +679,10 @@ pub fn run_coll(c: &CollCase) -> Outcome {
                     }
                 }
             }
-            CollOp::CloneIt => obj = obj.boxed_clone(),
+            CollOp::CloneIt => {
+                let copy = obj.boxed_clone();
+                held = Some((std::mem::replace(&mut obj, copy), model.clone(), i));
+            }
             CollOp::RestartBytes | CollOp::RestartHex => {
                 out.count("fault.F5_restart_from_bytes", 1);
                 let b = obj.bytes();
@@ -749,6 +754,25 @@ pub fn run_coll(c: &CollCase) -> Outcome {
             Err(e) => {
                 out.violate("C16.collection", &format!("unreadable/{:?}", kind), format!("{:?} op {}: {}", kind, i, e));
                 break;
+            }
+        }
+        // the collection a copy was taken from earlier: nobody touched it since, whatever happened to the copy
+        if let Some((h_obj, h_model, at)) = &held {
+            let mut want = h_model.clone();
+            if kind == CollKind::WsPlutusScripts {
+                want.sort_by_key(|id: &u8| id % 3);
+            }
+            out.count("c16.held_copies_checked", 1);
+            match read_ids(kind, &h_obj.bytes(), &universe) {
+                Ok(ids) if ids == want => {}
+                Ok(ids) => {
+                    out.violate("C16.collection", &format!("copy_changed_by_later_history/{:?}", kind), format!("{:?} op {} ({:?}): the collection a copy was taken from at op {} now serializes ids {:?}, it held {:?}", kind, i, op, at, ids, want));
+                    break;
+                }
+                Err(e) => {
+                    out.violate("C16.collection", &format!("unreadable/{:?}", kind), format!("{:?} op {}: held copy: {}", kind, i, e));
+                    break;
+                }
             }
         }
         // credentials that arrive as the keys of an ordered container (committee members): the collection the
